@@ -680,6 +680,13 @@ class PteraTransformer(NodeTransformer):
         hoist = _Hoist()
         node.body = [hoist.visit(stmt) for stmt in node.body]
 
+        if not isinstance(node.body[-1], ast.Return):
+            # Falling off the end returns None: report it like any other return
+            node.body = [
+                *node.body,
+                ast.copy_location(ast.Return(value=None), node.body[-1]),
+            ]
+
         new_body += self.visit_body(node.body)
         new_body = self.delimit(
             new_body,
